@@ -1,6 +1,7 @@
 ------------------------- MODULE Emit_ToolRunUniv -------------------------
 (* Writes the catalogues of ToolRunUniv as JSON (IOEnv.OUT):
-   {"zinv": [{tool, form, zfile}], "axes": [{j, o, wants_write}], "undo": [{defect, rel, flags, z, expect: {...}}]} *)
+   {"zinv": [{tool, form, zfile}], "axes": [{j, o, wants_write}], "undo": [{defect, rel, flags, z, expect: {...}}],
+    "extj": [{profile, jstate, tool, form, reach, class, wants_write}]} *)
 EXTENDS ToolRunUniv, Json, IOUtils, SequencesExt
 VARIABLE x
 B(b) == IF b THEN 1 ELSE 0
@@ -8,6 +9,8 @@ ExpJ(u) == LET e == Expect(u) IN [decided |-> B(e.decided), stage |-> e.stage, o
                                   csum |-> B(e.csum), incomplete |-> B(e.incomplete), code |-> e.code]
 Univ == [zinv |-> SetToSeq(ZInvocations),
          axes |-> SetToSeq({[j |-> a.j, o |-> a.o, wants_write |-> B(WantsWrite(a))] : a \in ImageAxes}),
+         extj |-> SetToSeq({[profile |-> u.profile, jstate |-> u.jstate, tool |-> u.tool, form |-> u.form, reach |-> u.reach,
+                             class |-> u.class, wants_write |-> B(ExtJWantsWrite(u.jstate))] : u \in ExtJRuns}),
          undo |-> SetToSeq({[defect |-> u.defect, rel |-> u.rel, flags |-> u.flags, z |-> B(u.z), expect |-> ExpJ(u)] : u \in UndoRuns})]
 ASSUME JsonSerialize(IOEnv.OUT, Univ)
 Init == x = 0
